@@ -18,16 +18,16 @@ func init() {
 		Explanation: "Decided (structural necessary conditions in pkg/blobserver/blobpacked): " +
 			"Z-order — in (*packer).writeAZip every removal of loose blobs from 'small' lies on the success edge of a meta CommitBatch, every meta write/commit lies on the success edge of the receive of the zip into 'large', every row put into a batch is put into a batch that is committed afterwards and names (in key or value) the ref under which that zip was received; every source of the refs handed to small.RemoveBlobs there is also a source of the key of a b: row of that batch (local element-flow; same sources, not same run-time sets); the un-suffixed whole-file row 'w:<wholeref>' is written outside reindex only where the MakingZips loop has exited (pk.chunksRemain known empty); small.RemoveBlobs is called only from writeAZip and the client-facing RemoveBlobs (frame rule: any other removal site is unordered with respect to a committed mapping). " +
 			"Z-size — the bytes received into 'large' come from a bytes.Buffer whose Len() is known <= the result of (*storage).maxZipBlobSize at the receive, and every return of maxZipBlobSize is the test override field or a constant <= constants.MaxBlobSize. " +
-			"Z-read — in Fetch, SubFetch and StatBlobs every call into 'small' is unreachable once the getMetaRow row of the same ref is known to exist and be packed, every call into 'large' is unreachable when it is known not packed and takes ref/offset/length from that row (offset also from the caller's offset in SubFetch); the refs StatBlobs forwards to 'small' are exactly those appended after a miss in the meta lookup; ReceiveBlob acknowledges only when the row exists or small.ReceiveBlob succeeded; EnumerateBlobs merges exactly 'small' and the enumerator over the 'b:' range. " +
-			"Z-codec — every meta row writer in the package has a statically known key/value shape; for each kind (b:, w:<ref>:<n>, w:<ref>, z:) the packer-side and the reindex-side writers produce the same field sequence (separators, ref vs. decimal integer), the parsers (parseMetaRow, parseMetaRowSizeOnly, parseZipMetaRow, conv.ParseFields in OpenWholeRef) expect that field count and kinds in base 10 with a bit size not below any unsigned writer argument; every meta.Find range ends at the successor of its prefix/separator; Manifest/BlobAndPos fields read by reindex/foreachZipBlob are written by writeAZip. " +
+			"Z-read — in Fetch, SubFetch and StatBlobs every call into 'small' is unreachable once the getMetaRow row of the same ref is known to exist and be packed, every call into 'large' is unreachable when it is known not packed and takes ref/offset/length from that row (offset also from the caller's offset in SubFetch); the refs StatBlobs forwards to 'small' are exactly those appended after a miss in the meta lookup, and its callback answers from the row only when the row exists and with the row's size; ReceiveBlob acknowledges only when the row exists or small.ReceiveBlob succeeded; EnumerateBlobs merges exactly 'small' and the enumerator over the 'b:' range. " +
+			"Z-codec — every meta row writer in the package has a statically known key/value shape; for each kind (b:, w:<ref>:<n>, w:<ref>, z:) the packer-side and the reindex-side writers produce the same field sequence (separators, ref vs. decimal integer), the parsers (parseMetaRow, parseMetaRowSizeOnly, parseZipMetaRow, conv.ParseFields in OpenWholeRef) expect that field count and kinds in base 10 with a bit size not below the narrowest unsigned type any writer renders for that field; every meta.Find range ends at the successor of its prefix/separator; Manifest/BlobAndPos fields read by reindex/foreachZipBlob are written by writeAZip. " +
 			"Z-recover — newFromConfig returns a usable store only after checkLargeIntegrity was called and, once reindex was started, only on its success edge; reindex reports success only on the success edge of each of its top-level CommitBatch calls and assigns s.meta the very KeyValue it filled; large.RemoveBlobs (deleting a zip) is only reachable where zipPartsInUse of the same ref succeeded and returned no part in use. " +
 			"NOT decided: equality of client-visible bytes/sizes before, during and after a pack; that the b: rows cover, as run-time sets, exactly the blobs removed from small (only that both are built from the same local sources); zip validity and that the first entry is the contiguous file; accuracy of the size estimate and termination of truncate-and-retry; any crash schedule or recovery outcome; streaming (StreamBlobs) and whole-file reads beyond the row codec; deletion marks (d: rows).",
 		RuleDocs: map[string]string{
-			"Z-order": "dominance on err==nil edges in (*packer).writeAZip (receive into large -> CommitBatch -> small.RemoveBlobs), value identity of the zip ref in every batch row, loop-exit fact for the whole-file row in (*packer).pack, who-may-call for small.RemoveBlobs",
-			"Z-size":  "dominating comparison fact zbuf.Len() <= maxZipBlobSize() at the large receive over the very buffer that is received; constant bound of maxZipBlobSize against constants.MaxBlobSize",
-			"Z-read":  "path pruning under the assumption 'row exists and is packed' / 'row is not packed' from each getMetaRow lookup in Fetch/SubFetch/StatBlobs/ReceiveBlob; value dependence of the large read on the row; literal structure of the MergedEnumerate sources",
+			"Z-order":   "dominance on err==nil edges in (*packer).writeAZip (receive into large -> CommitBatch -> small.RemoveBlobs), value identity of the zip ref in every batch row, loop-exit fact for the whole-file row in (*packer).pack, who-may-call for small.RemoveBlobs",
+			"Z-size":    "dominating comparison fact zbuf.Len() <= maxZipBlobSize() at the large receive over the very buffer that is received; constant bound of maxZipBlobSize against constants.MaxBlobSize",
+			"Z-read":    "path pruning under the assumption 'row exists and is packed' / 'row is not packed' from each getMetaRow lookup in Fetch/SubFetch/StatBlobs/ReceiveBlob; value dependence of the large read on the row; literal structure of the MergedEnumerate sources",
 			"Z-recover": "dominance: start-up (newFromConfig) returns a store only after checkLargeIntegrity ran and, in a recovery mode, after reindex succeeded; reindex returns success only after every top-level CommitBatch on the new index succeeded and installs that same index; a zip is removed from large only where zipPartsInUse of the same ref succeeded with an empty result",
-			"Z-codec": "table agreement: statically evaluated Sprintf/concatenation shapes of all meta row writers, compared between sibling writers and with the parse-call chains of the parsers; Find range limits; struct fields read vs. written for the zip manifest",
+			"Z-codec":   "table agreement: statically evaluated Sprintf/concatenation shapes of all meta row writers, compared between sibling writers and with the parse-call chains of the parsers; Find range limits; struct fields read vs. written for the zip manifest",
 		},
 		Run:       runC04,
 		DesignRef: "DESIGN.md §4 C04",
@@ -2034,7 +2034,6 @@ func c04FindRanges(p *Program, r *Reporter, writers []*c04Writer, bP, wP, zP str
 	}
 	r.Analysed("meta_find_sites", n)
 }
-
 
 // c04ManifestFields: fields of Manifest / BlobAndPos read by reindex and
 // foreachZipBlob must be written by writeAZip.
